@@ -78,7 +78,15 @@ package sstls
 //@   ghost leaf *x509.Certificate = nil
 //@   ghost leafErr bool = false
 //@   on call txtar.ParseFile(f) (a, e): assert(f == certFile && nRead == 0, "reads_the_cache_file"); readErr = e; nRead++
-//@   on call tls.X509KeyPair(c, k) (p, e): assert(readErr == nil && len(c) != 0 && len(k) != 0, "needs_both_members"); pair = p; pairErr = e != nil; nPair++
+//@   ghost arch *txtar.Archive = nil
+//@   ghost ci int = -1
+//@   ghost ki int = -1
+//@   after "certB = f.Data": ci = j
+//@   after "keyB = f.Data": ki = j
+//@   on call tls.X509KeyPair(c, k) (p, e): assert(readErr == nil && len(c) != 0 && len(k) != 0, "needs_both_members"); assert(c == certB && k == keyB && 0 <= ci && ci < len(ta.Files) && ta.Files[ci].Name == txtarCertFile && ta.Files[ci].Data == c && 0 <= ki && ki < len(ta.Files) && ta.Files[ki].Name == txtarKeyFile && ta.Files[ki].Data == k, "pair_is_built_from_the_members_named_cert_and_key"); pair = p; pairErr = e != nil; nPair++
+//@   loop 1 counter j
+//@     invariant cert_member: imp(len(certB) != 0, 0 <= ci && ci < j && ta.Files[ci].Name == txtarCertFile && ta.Files[ci].Data == certB)
+//@     invariant key_member: imp(len(keyB) != 0, 0 <= ki && ki < j && ta.Files[ki].Name == txtarKeyFile && ta.Files[ki].Data == keyB)
 //@   on call x509.ParseCertificate(der) (c, e): assert(nPair == 1 && !pairErr && der == pair.Certificate[0], "leaf_is_the_pairs_first_certificate"); leaf = c; leafErr = e != nil
 //@   ensures has_leaf: imp(err == nil, cert.Leaf != nil)
 //@   ensures not_exist_only_from_the_read: imp(err != nil && errors.Is(err, fs.ErrNotExist), readErr != nil && errors.Is(readErr, fs.ErrNotExist))
@@ -93,6 +101,45 @@ package sstls
 //@   ghost wrErr bool = false
 //@   ghost nWr int = 0
 //@   on call os.MkdirAll(d, mode) (e): assert(nMk == 0 && nWr == 0 && d == filepath.Dir(certFile) && mode == 0700, "directories_owner_only"); mkErr = e != nil; nMk++
-//@   on call os.WriteFile(name, data, mode) (e): assert(nMk == 1 && !mkErr && nWr == 0 && name == certFile && mode == 0600, "cache_file_owner_only"); wrErr = e != nil; nWr++
+//@   ghost fmtd []byte = nil
+//@   ghost nFmt int = 0
+//@   on call txtar.Format(a) (d): assert(len(a.Files) == 2 && a.Files[0].Name == txtarCertFile && a.Files[0].Data == certPEM && a.Files[1].Name == txtarKeyFile && a.Files[1].Data == keyPEM, "archive_holds_exactly_the_given_certificate_and_key_under_their_member_names"); fmtd = d; nFmt++
+//@   on call os.WriteFile(name, data, mode) (e): assert(nMk == 1 && !mkErr && nWr == 0 && name == certFile && mode == 0600, "cache_file_owner_only"); assert(nFmt == 1 && data == fmtd, "file_content_is_the_formatted_archive"); wrErr = e != nil; nWr++
 //@   ensures errors: imp(mkErr || wrErr, err != nil)
 //@   ensures written_once: imp(!mkErr, nWr == 1) && imp(!mkErr && !wrErr, err == nil)
+
+// ---- certificate generation (C08, C05): the certificate handed back is the
+// parse of exactly the two PEM blocks handed back with it, the key block
+// encodes the very private key whose public half was certified, and the
+// certificate is self-signed with that key.
+//@ func generateSelfSignedCert(subject, dnsNames, ipAddresses, notAfter) (certPEM, keyPEM, cert, err)
+//@   props C08 C05
+//@   ghost nKey int = 0
+//@   ghost der []byte = nil
+//@   ghost nDer int = 0
+//@   ghost pkcs []byte = nil
+//@   ghost nPkcs int = 0
+//@   ghost cpem []byte = nil
+//@   ghost kpem []byte = nil
+//@   ghost nPem int = 0
+//@   ghost pair tls.Certificate
+//@   ghost nPair int = 0
+//@   ghost leaf *x509.Certificate = nil
+//@   on call ecdsa.GenerateKey(c, r) (k, e): assert(nKey == 0, "one_key_per_certificate"); nKey++
+//@   on call x509.CreateCertificate(r, t, p, pub, pk) (d, e): assert(nKey == 1 && t == p && t == &template && pub == &priv.PublicKey && pk == priv && nDer == 0, "self_signed_over_the_generated_keys_public_half"); der = d; nDer++
+//@   on call x509.MarshalPKCS8PrivateKey(k) (b, e): assert(k == priv && nPkcs == 0, "key_block_encodes_the_generated_key"); pkcs = b; nPkcs++
+//@   on call pem.EncodeToMemory(blk) (out): if nPem == 0 { assert(blk.Type == "CERTIFICATE" && nDer == 1 && blk.Bytes == der, "certificate_block_is_the_created_certificate"); cpem = out } else { assert(nPem == 1 && blk.Type == "PRIVATE KEY" && nPkcs == 1 && blk.Bytes == pkcs, "key_block_is_the_marshalled_key"); kpem = out }; nPem++
+//@   on call tls.X509KeyPair(c, k) (p, e): assert(nPem == 2 && c == cpem && k == kpem && nPair == 0, "served_pair_is_parsed_from_the_two_blocks"); pair = p; nPair++
+//@   on call x509.ParseCertificate(d) (c, e): assert(nPair == 1 && d == pair.Certificate[0], "leaf_is_the_pairs_first_certificate"); leaf = c
+//@   ensures failure_returns_nothing: imp(err != nil, len(certPEM) == 0 && len(keyPEM) == 0)
+//@   ensures returns_the_blocks_it_parsed: imp(err == nil, nPair == 1 && certPEM == cpem && keyPEM == kpem && cert.Certificate == pair.Certificate && cert.PrivateKey == pair.PrivateKey && cert.Leaf == leaf && leaf != nil)
+
+//@ func GenerateSelfSignedCertificate(subject, dnsNames, ipAddresses, lifespan) (certPEM, keyPEM, cert, err)
+//@   props C08 C05
+//@   ghost n int = 0
+//@   ghost rc []byte = nil
+//@   ghost rk []byte = nil
+//@   ghost rcert tls.Certificate
+//@   ghost rerr error = nil
+//@   on call generateSelfSignedCert(s, d, i, na) (c, k, crt, e): assert(n == 0 && s == subject, "generated_once"); rc = c; rk = k; rcert = crt; rerr = e; n++
+//@   ensures passes_on_the_generated_triple: n == 1 && certPEM == rc && keyPEM == rk && cert == rcert && err == rerr
